@@ -245,7 +245,15 @@ fn exit_context_family(sh: &mut Shard) {
 /// value} or als / als-anders / loop / block around deeper statements; conditions come from the
 /// parameters a, b of the enclosing function, called with all four truth assignments.
 fn depth_templates(d: usize, in_loop: bool, f: &mut dyn FnMut(&Stmt) -> bool) -> bool {
-    let mut leaves: Vec<Stmt> = vec![print1(int(7)), Stmt::Return(int(2)), let_("v", int(3)), Stmt::Block(vec![]), es(int(1))];
+    let mut leaves: Vec<Stmt> = vec![
+        print1(int(7)),
+        Stmt::Return(int(2)),
+        let_("v", int(3)),
+        Stmt::Block(vec![]),
+        es(int(1)),
+        // a function definition (its code starts with a jump over its body)
+        es(func("hulp", &[], vec![Stmt::Return(int(4))])),
+    ];
     if in_loop {
         leaves.push(Stmt::Break);
         leaves.push(Stmt::Continue);
